@@ -1,4 +1,6 @@
 import DracoProofs.EbBasic
+import DracoProofs.EbEncCoders
+import DracoProofs.EbEncPredict
 /-
   C01 (staging) — facts about the Edgebreaker mesh decoder model (DracoModel/Eb*.lean).
   The model is tied to the real decoder by the correspondence of C01 (tools/props/ebcases.py);
@@ -42,19 +44,19 @@ example :
   rfl
 
 /-- `Previous(Next(c)) = c` -/
-theorem corner_prev_next (c : Nat) (h : c < inv) : prevC (nextC c) = c := prevC_nextC c h
+theorem corner_prev_next (c : Nat) (h : c < inv) : Eb.prevC (Eb.nextC c) = c := prevC_nextC c h
 /-- `Next(Previous(c)) = c` -/
-theorem corner_next_prev (c : Nat) (h : c < inv) : nextC (prevC c) = c := nextC_prevC c h
+theorem corner_next_prev (c : Nat) (h : c < inv) : Eb.nextC (Eb.prevC c) = c := nextC_prevC c h
 /-- `Next(Next(Next(c))) = c` -/
-theorem corner_next_three (c : Nat) (h : c < inv) : nextC (nextC (nextC c)) = c := nextC_three c h
+theorem corner_next_three (c : Nat) (h : c < inv) : Eb.nextC (Eb.nextC (Eb.nextC c)) = c := nextC_three c h
 /-- `Next` and `Previous` stay in the face `c / 3` -/
-theorem corner_same_face (c : Nat) (h : c ≠ inv) : nextC c / 3 = c / 3 ∧ prevC c / 3 = c / 3 :=
+theorem corner_same_face (c : Nat) (h : c ≠ inv) : Eb.nextC c / 3 = c / 3 ∧ Eb.prevC c / 3 = c / 3 :=
   ⟨nextC_face c h, prevC_face c h⟩
 
-example : prevC (nextC 5) = 5 ∧ nextC 5 = 3 ∧ nextC (nextC (nextC 4)) = 4 := by decide
+example : Eb.prevC (Eb.nextC 5) = 5 ∧ Eb.nextC 5 = 3 ∧ Eb.nextC (Eb.nextC (Eb.nextC 4)) = 4 := by decide
 
 /-- the invalid corner is a fixed point of both (the C++ returns the argument) -/
-theorem corner_invalid_fixed : nextC inv = inv ∧ prevC inv = inv := by decide
+theorem corner_invalid_fixed : Eb.nextC inv = inv ∧ Eb.prevC inv = inv := by decide
 
 /-- `MeshEdgebreakerTraversalDecoder::DecodeSymbol` returns one of TOPOLOGY_C/S/L/R/E (the "unknown
     symbol" exit of the connectivity loop is dead for the standard traversal) and consumes at most
@@ -73,5 +75,237 @@ theorem intSqrt_floor_small : ∀ n < 200, intSqrt n ^ 2 ≤ n ∧ n < (intSqrt 
 
 example : intSqrt 1000000 = 1000 ∧ intSqrt 999999 = 999 ∧ intSqrt (2 ^ 64 - 1) = 2 ^ 32 - 1 := by
   decide
+
+
+/-! ## Edgebreaker ENCODER model (DracoModel/EbEnc*.lean) against the decoder model
+
+  The encoder model is tied BYTE FOR BYTE to the real encoder (`tools/props/ebenc_cases.py`, driver op
+  `ebenc`); on every case the op also evaluates `rt-ok` (the model decoder applied to the model encoder's
+  stream satisfies `Spec.checkCore .edgebreaker`), `iso-ok` (`EbEnc.ctIso`, the decidable predicate CTIso) and
+  `counts-ok`.  Proved below — for the functions of the two models themselves:
+
+  (a) the side coders of the connectivity: standard traversal symbols, every `RAnsBitEncoder` buffer (start
+      faces, attribute seams, normal flips, tex-coord orientations, crease flags), the topology split event
+      table, one valence context;
+  (b) toward `eb_roundtrip_conditional` (IF CTIso THEN the decoded geometry satisfies RoundTripOK): the
+      prediction layer — on the SAME mesh data the decoder loops invert the encoder loops for delta coding
+      (wrap transform), delta coding of normals (canonicalized octahedron transform) and PARALLELOGRAM
+      prediction, whenever the encoder loop succeeds.  Missing for the full implication (all evaluated per case,
+      none proved): `seams_correspond` (the seam bits decoded along the decoder's face order mark the images of
+      the encoder's seam edges), `traversal_equivariant` (the depth-first / prediction-degree traversals of two
+      CTIso tables started from corresponding corners visit corresponding corners, so that the mesh data of
+      both sides correspond), the inverses of the constrained multi-parallelogram and tex-coord
+      schemes (`constrained_multi_roundtrip`, `tex_coords_roundtrip`),
+      `assign_points_correspond` (the decoder's point ids realise the encoder's corner → attribute value
+      relation) and the step from there to `Spec.checkCore`.
+  (c) `eb_encoded_counts_partial`: under CTIso the decoder's face count is the number of faces the encoder
+      processed; that this is `num_faces − NumDegeneratedFaces` (what the encoder reports) and the statement
+      about points are evaluated (`counts-ok`), not proved.
+-/
+
+open Draco.EbEnc in
+/-- (a) **standard traversal symbols**: written in reverse by `EncodeTraversalSymbols`, read back in
+    decoding order by `symbols.size` calls of `DecodeSymbol`; the stored size is the number of bytes of the
+    bit sequence (what `EndBitDecoding` skips) -/
+theorem eb_standard_symbols_roundtrip (symbols : Array Nat) (rest : Bytes)
+    (hs : ∀ s ∈ symbols.toList, IsTopo s)
+    (hlen : ((traversalBits symbols).length + 7) / 8 < 2 ^ 64) :
+    ∃ body : Bytes,
+      readBitRegionSize false (encodeTraversalSymbols symbols ++ rest) = some (body.length, body ++ rest) ∧
+      body.length = ((traversalBits symbols).length + 7) / 8 ∧
+      (readStdSymbols symbols.size (BitReader.start (body ++ rest))).1 = symbols.toList.reverse ∧
+      (readStdSymbols symbols.size (BitReader.start (body ++ rest))).2.decoded = (traversalBits symbols).length :=
+  standard_symbols_roundtrip symbols rest hs hlen
+
+open Draco.EbEnc in
+/-- non-vacuity: C, R, E, S written, read back as S, E, R, C -/
+example : ∃ body : Bytes,
+    readBitRegionSize false (encodeTraversalSymbols #[0, 5, 7, 1] ++ [255]) = some (body.length, body ++ [255]) ∧
+    body.length = 2 ∧
+    (readStdSymbols 4 (BitReader.start (body ++ [255]))).1 = [1, 7, 5, 0] ∧
+    (readStdSymbols 4 (BitReader.start (body ++ [255]))).2.decoded = 10 :=
+  eb_standard_symbols_roundtrip #[0, 5, 7, 1] [255] (by decide) (by decide)
+
+open Draco.EbEnc in
+/-- (a) **bit buffers** (start faces, seams of every attribute, normal flips, tex-coord orientations, crease
+    flags): `StartEncoding`, `EncodeBit*`, `EndEncoding` is opened by `StartDecoding`, which consumes exactly the
+    written bytes, and `DecodeNextBit` delivers the bits in order — for every value of `zero_prob_raw` -/
+theorem eb_bit_buffer_roundtrip (ch : ConnChoices) (bits : List Bool) (hlen : bits.length + 3 < 2 ^ 32)
+    (rest : Bytes) :
+    ∃ d, ransBitStart false (finishBits ch (encodeBits bits) ++ rest) = some (d, rest) ∧
+      Yields RAnsBitDec.nextBit d bits :=
+  bit_buffer_roundtrip ch bits hlen rest
+
+open Draco.EbEnc in
+example : ∃ d, ransBitStart false (finishBits ⟨fun n0 tot => (512 * n0 + tot) / (2 * tot), ProbOracle.exact, fun _ => .tagged⟩
+      (encodeBits [true, false, false, true]) ++ [7]) = some (d, [7]) ∧
+    Yields RAnsBitDec.nextBit d [true, false, false, true] :=
+  eb_bit_buffer_roundtrip _ _ (by decide) _
+
+open Draco.EbEnc in
+/-- (a) **topology split events**: `EncodeSplitData` → `DecodeHoleAndTopologySplitEvents` (bitstream 2.2)
+    returns the events last one first (the order the decoder consumes them in) and consumes exactly the
+    table.  `SplitsOK`: source ids non-decreasing and < 2^32, split id ≤ source id, edge 0/1. -/
+theorem eb_split_events_roundtrip (splits : List TopoSplit) (numFaces : Nat) (hok : SplitsOK 0 splits)
+    (hn : splits.length ≤ numFaces) (hlen : splits.length < 2 ^ 32) :
+    Runs (decodeTopologySplits 514 numFaces) 514 (encodeSplitData splits.toArray) splits.reverse 514 :=
+  split_events_runs splits numFaces hok hn hlen
+
+open Draco.EbEnc in
+example : Runs (decodeTopologySplits 514 9) 514 (encodeSplitData #[⟨3, 1, 1⟩, ⟨3, 0, 0⟩, ⟨8, 5, 1⟩])
+    [⟨8, 5, 1⟩, ⟨3, 0, 0⟩, ⟨3, 1, 1⟩] 514 :=
+  eb_split_events_roundtrip [⟨3, 1, 1⟩, ⟨3, 0, 0⟩, ⟨8, 5, 1⟩] 9 (by decide) (by decide) (by decide)
+
+open Draco.EbEnc in
+/-- (a) **one valence context**: size varint + `EncodeSymbols(…, 1, nullptr, …)` is read back by
+    `DecodeVarint` + `DecodeSymbols(size, 1, …)`, for either symbol scheme and any oracle -/
+theorem eb_valence_context_roundtrip (ch : ConnChoices) (i : Nat) (syms : List Nat) (bs rest : Bytes)
+    (hlen : syms.length < 2 ^ 32)
+    (h : encodeSymbolsWith ch.oracle (ch.ctxScheme i) 7 1 syms = some bs) :
+    decVarint 32 (encVarint (syms.length % 2 ^ 32) ++ (bs ++ rest)) = some (syms.length, bs ++ rest) ∧
+    decodeSymbolsV false syms.length 1 (bs ++ rest) = some (syms, rest) :=
+  valence_context_roundtrip ch i syms bs rest hlen h
+
+example : decodeSymbolsV false 5 1 ([1, 2, 5, 205, 12, 3, 205, 12, 3, 105, 38, 3, 53, 92, 157] ++ [9]) =
+    some ([4, 2, 4, 0, 4], [9]) := by
+  have e : encodeSymbolsWith ProbOracle.exact .raw 7 1 [4, 2, 4, 0, 4] =
+      some [1, 2, 5, 205, 12, 3, 205, 12, 3, 105, 38, 3, 53, 92, 157] := by
+    decide +kernel
+  exact (eb_valence_context_roundtrip ⟨fun _ _ => 128, ProbOracle.exact, fun _ => .raw⟩ 0 [4, 2, 4, 0, 4] _ [9]
+    (by decide) e).2
+
+open Draco.EbEnc in
+/-- (b) **delta prediction, wrap transform**: decoder loop ∘ encoder loop = identity on value arrays of
+    `n ≥ 1` entries × `nc ≥ 1` components inside the range the transform was initialised with -/
+theorem eb_prediction_delta_roundtrip (wt : WrapT) (lo hi : Int) (nc n : Nat) (data : Array Int)
+    (hnc : 0 < nc) (hn : 0 < n) (hsz : data.size = n * nc)
+    (hinit : Wrap.init lo hi = some wt) (hlo : -2 ^ 31 ≤ lo) (hhi : hi < 2 ^ 31)
+    (hrange : ∀ i (h : i < data.size), lo ≤ data[i] ∧ data[i] ≤ hi) :
+    ∃ corr, deltaEncodeWrap wt nc data = .ok corr ∧ deltaDecodeWrap wt nc corr = .ok data :=
+  delta_wrap_roundtrip wt lo hi nc n data hnc hn hsz hinit hlo hhi hrange
+
+open Draco.EbEnc in
+example : ∃ corr, deltaEncodeWrap ⟨-5, 9, 15, 7, -7⟩ 2 #[3, -5, 9, 0, -1, 4] = .ok corr ∧
+    deltaDecodeWrap ⟨-5, 9, 15, 7, -7⟩ 2 corr = .ok #[3, -5, 9, 0, -1, 4] :=
+  eb_prediction_delta_roundtrip _ (-5) 9 2 3 _ (by decide) (by decide) (by decide) (by decide) (by decide) (by decide)
+    (by decide)
+
+open Draco.EbEnc in
+/-- (b) **delta prediction of normals** (canonicalized octahedron transform): the decoder's `deltaDecode`
+    on the corrections of `deltaEncodeOcta`, for entries that are canonical grid points -/
+theorem eb_prediction_octahedron_delta_roundtrip (q : Nat) (t : OctaT) (hq : Octa.init q = some t) (n : Nat)
+    (data : Array Int) (hlen : data.size = n * 2)
+    (hent : ∀ e ∈ SeqEnc.entriesOf 2 data.size data.toList, OctaEntry t e) :
+    deltaDecode (octaDecEntry t) 2 (deltaEncodeOcta t data).toList = data.toList :=
+  delta_octa_roundtrip q t hq n data hlen hent
+
+open Draco.EbEnc in
+example : deltaDecode (octaDecEntry ⟨4, 15, 14, 7⟩) 2 (deltaEncodeOcta ⟨4, 15, 14, 7⟩ #[7, 7, 3, 5, 10, 4]).toList =
+    [7, 7, 3, 5, 10, 4] :=
+  eb_prediction_octahedron_delta_roundtrip 4 _ (by decide) 3 #[7, 7, 3, 5, 10, 4] rfl (by
+    intro e he
+    have : e ∈ [[7, 7], [3, 5], [10, 4]] := by simpa [SeqEnc.entriesOf] using he
+    simp only [List.mem_cons, List.mem_nil_iff, or_false] at this
+    rcases this with rfl | rfl | rfl
+    · exact ⟨7, 7, rfl, by decide, by decide⟩
+    · exact ⟨3, 5, rfl, by decide, by decide⟩
+    · exact ⟨10, 4, rfl, by decide, by decide⟩)
+
+open Draco.EbEnc in
+/-- (b) **parallelogram prediction**: on the same mesh data (corner table view, data-to-corner map,
+    vertex-to-data map), whenever the encoder loop returns corrections the decoder loop returns the values
+    (and a count of parallelogram-predicted entries).  Values inside the range of the wrap transform. -/
+theorem eb_prediction_parallelogram_roundtrip (md : MeshData) (wt : WrapT) (lo hi : Int) (nc n : Nat)
+    (data corr : Array Int)
+    (hnc : 0 < nc) (hn : 0 < n) (hd : md.d2c.size = n) (hsz : data.size = n * nc)
+    (hinit : Wrap.init lo hi = some wt) (hlo : -2 ^ 31 ≤ lo) (hhi : hi < 2 ^ 31)
+    (hrange : ∀ i (h : i < data.size), lo ≤ data[i] ∧ data[i] ≤ hi)
+    (henc : parallelogramEncode md wt nc data = .ok corr) :
+    ∃ used, parallelogramDecode md wt nc corr = .ok (data, used) :=
+  parallelogram_roundtrip_of_encode md wt lo hi nc n data corr hnc hn hd hsz hinit hlo hhi hrange henc
+
+
+/-- two triangles `(0,1,2)`, `(2,1,3)`; values are coded in the order of the corners 1, 2, 0, 5; the last entry
+    has a parallelogram -/
+def exMesh : MeshData :=
+  { t := { c2v := #[0, 1, 2, 2, 1, 3], opp := #[5, inv, inv, inv, inv, 0], seam := #[], lm := #[0, 1, 2, 5],
+           isAtt := false, numFaces := 2 },
+    d2c := #[1, 2, 0, 5], v2d := #[2, 0, 1, 3] }
+
+open Draco.EbEnc in
+set_option maxRecDepth 4000 in
+theorem exParallelogramEnc :
+    parallelogramEncode exMesh ⟨0, 20, 21, 10, -10⟩ 1 #[3, 7, 12, 16] = .ok #[3, 4, 5, -5] := by
+  simp [parallelogramEncode, encodeBackward, parallelogramCorrAt, parallelogramPredictionE, checkParallelogramEntries,
+    corrWrap, parallelogramPrediction, exMesh, TView.opposite, TView.vertex, rd, rdI, wrI, inv, Eb.nextC, Eb.prevC,
+    Std.Legacy.Range.forIn_eq_forIn_range', Std.Legacy.Range.size, bind, Except.bind, pure, Except.pure, wrap32,
+    Wrap.encCorr, Wrap.clamp, List.range'_succ]
+  decide
+
+open Draco.EbEnc in
+/-- non-vacuity: the last entry is predicted by a parallelogram (3 + 7 − 12, clamped to 0, correction wrapped) -/
+example : ∃ used, parallelogramDecode exMesh ⟨0, 20, 21, 10, -10⟩ 1 #[3, 4, 5, -5] = .ok (#[3, 7, 12, 16], used) :=
+  eb_prediction_parallelogram_roundtrip exMesh ⟨0, 20, 21, 10, -10⟩ 0 20 1 4 #[3, 7, 12, 16] _ (by decide) (by decide)
+    (by decide) (by decide) (by decide) (by decide) (by decide) (by decide) exParallelogramEnc
+
+open Draco.EbEnc in
+/-- (b) **geometric normal prediction**: whenever the encoder loop succeeds, the decoder loop — given the
+    encoder's corrections and a bit decoder that yields the encoder's flip bits (`eb_bit_buffer_roundtrip`)
+    — returns the octahedral coordinates (entries = canonical grid points, what
+    `AttributeOctahedronTransform` produces) -/
+theorem eb_prediction_geometric_normal_roundtrip (md : MeshData) (ps : PosSource) (q : Nat) (ot : OctaT)
+    (hq : Octa.init q = some ot) (data : Array Int) (n : Nat) (hd : md.d2c.size = n) (hsz : data.size = 2 * n)
+    (hent : ∀ p, p < n → Octa.inGrid ot (data.getD (2 * p) 0, data.getD (2 * p + 1) 0) ∧
+      Octa.canonical ot (data.getD (2 * p) 0, data.getD (2 * p + 1) 0))
+    (corr : Array Int) (flips : Array Bool) (henc : geometricNormalEncode md ps ot data = .ok (corr, flips))
+    (fd : RAnsBitDec) (hfd : Yields RAnsBitDec.nextBit fd flips.toList) :
+    ∃ k, geometricNormalDecode md ps ot (Leaf.octaDec ot) false fd corr = .ok (data, k) :=
+  geometric_normal_roundtrip md ps q ot hq data n hd hsz hent corr flips henc fd hfd
+
+
+/-- one triangle in the plane z = 0 (positions (0,0,0), (4,0,0), (0,4,0)), 4 bit octahedral coordinates -/
+def exTriangle : MeshData :=
+  { t := { c2v := #[0, 1, 2], opp := #[inv, inv, inv], seam := #[], lm := #[0, 1, 2], isAtt := false, numFaces := 1 },
+    d2c := #[1, 2, 0], v2d := #[2, 0, 1] }
+def exPositions : PosSource := { pointIds := #[1, 2, 0], map := #[0, 1, 2], values := #[0, 0, 0, 4, 0, 0, 0, 4, 0] }
+def exOcta : OctaT := { q := 4, maxQ := 15, maxV := 14, center := 7 }
+
+open Draco.EbEnc in
+set_option maxRecDepth 8000 in
+theorem exNormalEnc :
+    geometricNormalEncode exTriangle exPositions exOcta #[7, 7, 3, 5, 10, 4] = .ok (#[7, 0, 5, 4, 4, 12], #[true, true, true]) := by
+  simp [geometricNormalEncode, normalPredict, normalCorrection, exTriangle, exPositions, exOcta, PosSource.get, TView.opposite, TView.vertex,
+    TView.swingLeft, TView.swingRight, rd, rdI, wrI, inv, Eb.nextC, Eb.prevC,
+    Std.Legacy.Range.forIn_eq_forIn_range', Std.Legacy.Range.size, bind, Except.bind, pure, Except.pure, wrap32,
+    List.range'_succ, Octa.canonicalizeIntVec, Octa.intVecToCoords, Octa.encCorr, Octa.modMax, Octa.makePositive,
+    Octa.canonicalize, Octa.isInDiamond, Octa.invertDiamond, Octa.rotationCount, Octa.rotatePoint, Octa.isInBottomLeft,
+    absSum3, Eb.iabs, u64, s64, toUnsigned, toSigned, Draco.iabs, u32, s32, tdiv2]
+  all_goals decide
+
+open Draco.EbEnc in
+/-- non-vacuity: three normals against the face normal (0,0,1) · 16, all coded with the flipped prediction; the
+    bit decoder is the one `eb_bit_buffer_roundtrip` provides for the flip bits -/
+example : ∃ fd k, geometricNormalDecode exTriangle exPositions exOcta (Leaf.octaDec exOcta) false fd #[7, 0, 5, 4, 4, 12] =
+    .ok (#[7, 7, 3, 5, 10, 4], k) := by
+  obtain ⟨d, _, hy⟩ := eb_bit_buffer_roundtrip ⟨fun n0 tot => (512 * n0 + tot) / (2 * tot), ProbOracle.exact, fun _ => .tagged⟩
+    [true, true, true] (by decide) []
+  obtain ⟨k, hk⟩ := eb_prediction_geometric_normal_roundtrip exTriangle exPositions 4 exOcta (by decide) #[7, 7, 3, 5, 10, 4] 3 rfl rfl
+    (by decide) _ _ exNormalEnc d hy
+  exact ⟨d, k, hk⟩
+
+open Draco.EbEnc in
+/-- (c) under CTIso the decoder's corner table has exactly one face per face the encoder processed
+    (`processed_connectivity_corners_`) -/
+theorem eb_encoded_counts_partial (t : CT) (processed : Array Nat) (nf : Nat) (dc2v dopp : Array Nat)
+    (h : ctIso t processed nf dc2v dopp = true) :
+    nf = processed.size ∧ dc2v.size = 3 * nf ∧ dopp.size = 3 * nf :=
+  ctIso_faces t processed nf dc2v dopp h
+
+open Draco.EbEnc in
+set_option maxRecDepth 8000 in
+/-- non-vacuity: one triangle, processed from its corner 1, decoder vertex ids 7, 8, 9 -/
+example : ctIso ⟨#[0, 1, 2], #[inv, inv, inv], #[0, 1, 2], 0, 0⟩ #[1] 1 #[7, 8, 9] #[inv, inv, inv] = true := by
+  simp [ctIso, CT.numCorners, CT.numVertices, Id.run, Std.Legacy.Range.forIn_eq_forIn_range', Std.Legacy.Range.size,
+    List.range'_succ, inv, Eb.nextC, Eb.prevC, bind, pure]
 
 end Draco.C01Eb
